@@ -32,6 +32,7 @@ def run(ctx, crate):
     rule_slot_identity(ctx, crate)
     rule_head_only_reap(ctx, crate)
     rule_removal_keeps_screen_current(ctx, crate)
+    D.rule_render_unless_hidden(ctx, crate)
     D.rule_finished_draws_forced(ctx, crate)
     D.rule_rows_newtype(ctx, crate)
     D.rule_width_source(ctx, crate)
